@@ -8,7 +8,7 @@ import qgen
 import enginecheck as ec
 
 THEOREM = 'C13_cli_success / C13_cli_failure (Props/C13.v) + engine and header models: every entry point yields the model table'
-CELLS = ['a', 'b', 'ab', 'k', 'x1', '12', 'zz', 'A']
+CELLS = ['a', 'b', 'ab', 'k', 'x1', '12', 'zz', 'A', 'a,b', 'q"r', ' sp ', 'é', '"', ',', 'x y']   # incl. cells the quoted dialect must quote
 ENTRY = ['query_table', 'query', 'query_csv', 'cli_file', 'cli_stdio', 'cli_stdio_tsv', 'cli_file_csv', 'pandas', 'sqlite']
 
 
@@ -21,7 +21,7 @@ def gen_case(ctx):
     hdrB, B = None, None
     if join:
         hdrB = ['k', 'w']
-        B = [[r.choice(CELLS[:4]), 'w%d' % i] for i in range(r.randint(0, 3))]
+        B = [[r.choice(CELLS[:4] + ['a,b']), 'w%d' % i] for i in range(r.randint(0, 3))]
     # type-agnostic expressions over string cells: fields, concatenation, literals, comparisons of strings, like
     def fld():
         i = r.randint(0, na - 1)
@@ -47,7 +47,7 @@ def gen_case(ctx):
     where, wtxt = None, ''
     if r.random() < 0.4:
         e1, t1, _ = fld()
-        v = r.choice(CELLS)
+        v = r.choice(CELLS[:8])
         op = r.choice(['ne', 'eq', 'lt'])
         where = (op, e1, ('lit', v))
         wtxt = ' where %s %s "%s"' % (t1, {'ne': '!=', 'eq': '==', 'lt': '<'}[op], v)
@@ -93,6 +93,27 @@ def model(cases):
     return args, mres, exp
 
 
+def csv_render(tables):
+    """header + rows -> CSV text, rendered by the CSV writer MODEL (CsvWriter.v, entry 120: python flavour, quoted, ',', utf-8)"""
+    args = [lib.enc([0, 1, ',', 1, lib.Opt(None), [[lib.Raw('(0 %s)' % lib.enc(x)) for x in r] for r in t]]) for t in tables]
+    res = lib.run_model(120, args)
+    return [''.join(lib.dec_str(l) + '\n' for l in m[0]) for m in res]
+
+
+def csv_parse(texts_delims):
+    """CSV output texts -> tables, split by the splitter MODEL (Csv.v smart_split, entry 100): quoted for ',', simple for TAB"""
+    out, args, index = [], [], []
+    for i, (text, d) in enumerate(texts_delims):
+        lines = text.split('\n')
+        if lines and lines[-1] == '':
+            lines.pop()
+        args.append(lib.enc([1 if d == ',' else 0, d, 0, lines]))
+    res = lib.run_model(100, args) if args else []
+    for m in res:
+        out.append([[lib.dec_str(f) for f in x[0]] for x in m])
+    return out
+
+
 def check_entry(name, e, g):
     """g = what entry point `name` returned; e = model prediction"""
     if name.startswith('cli'):
@@ -105,6 +126,23 @@ def check_entry(name, e, g):
     if e['error'] is not None:
         return g.get('error') is not None and g['error'][0] == e['error'][0]
     return g.get('error') is None and g['header'] == e['header'] and g['rows'] == e['rows']
+
+
+def parse_outputs(got):
+    """replace every CSV text an entry point produced by the table the splitter model reads from it"""
+    todo = []
+    for g in got:
+        if isinstance(g, dict):
+            for n in ENTRY:
+                x = g.get(n)
+                if isinstance(x, dict) and 'text' in x:
+                    todo.append(x)
+    tables = csv_parse([(x['text'], x['delim']) for x in todo])
+    for x, t in zip(todo, tables):
+        x['header'] = t[0] if t else None
+        x['rows'] = t[1:]
+        if 'rc' in x and x['rc'] != 0:
+            x['stdout_len_on_failure'] = len(x['text'])
 
 
 def rel(c, e, g):
@@ -125,7 +163,12 @@ def run(ctx):
     n = 120 if ctx.tier == 'quick' else 10000
     cases = [gen_case(ctx) for _ in range(n)]
     args, mres, exp = model(cases)
+    ins = csv_render([[c['hdr']] + c['A'] for c in cases])
+    joins = csv_render([([c['hdrB']] + c['B']) if c['B'] is not None else [] for c in cases])
+    for c, a, b in zip(cases, ins, joins):
+        c['csv_in'], c['csv_join'] = a, b
     got = lib.run_impl_py('c13', cases, extra_env={'VERIF_SCRATCH': lib.BUILD}, timeout=3000)
+    parse_outputs(got)
     ctx.compare(cases, exp, got, THEOREM, rel=rel, describe=describe,
                 corrupt=lambda e: {'rows': [['CANARY']], 'header': None, 'error': None})
     ctx.cross_check_vm(300, args, mres, n=30)
@@ -148,6 +191,9 @@ def run(ctx):
 
 def replay(ctx, case):
     args, mres, exp = model([case])
+    case['csv_in'] = csv_render([[case['hdr']] + case['A']])[0]
+    case['csv_join'] = csv_render([([case['hdrB']] + case['B']) if case['B'] is not None else []])[0]
     got = lib.run_impl_py('c13', [case], shards=1, extra_env={'VERIF_SCRATCH': lib.BUILD})
+    parse_outputs(got)
     ctx.count(len(ENTRY))
     ctx.compare([case], exp, got, THEOREM, rel=rel, describe=describe)
